@@ -84,22 +84,40 @@ Definition pfault_eqb (a b : pfault) : bool :=
   | _, _ => false
   end.
 
-Definition pres_eqb {A} (eqb : A -> A -> bool) (a b : pres A) : bool :=
+Definition pyres_eqb {A} (eqb : A -> A -> bool) (a b : pyres A) : bool :=
   match a, b with
-  | POk x, POk y => eqb x y
-  | PEof, PEof => true
-  | PFault x, PFault y => pfault_eqb x y
+  | PyOk x, PyOk y => eqb x y
+  | PyEof, PyEof => true
+  | PyFault x, PyFault y => pfault_eqb x y
   | _, _ => false
   end.
 
-Definition pcase := (nat * list N * list pop * list (pres rval))%type.
+Definition pcase := (nat * list N * list pop * list (pyres rval))%type.
 
 (* the machine model agrees with the observation, exception kinds included *)
 Definition pcase_ok_machine (c : pcase) : bool :=
   let '(bs, inp, ops, obs) := c in
-  list_eqb (pres_eqb rval_eqb) (prun bs (pin_init inp) ops) obs.
+  list_eqb (pyres_eqb rval_eqb) (prun bs (pin_init inp) ops) obs.
 
 (* the byte-level contract agrees with the observation, any exception standing for end-of-input *)
 Definition pcase_ok_abs (c : pcase) : bool :=
   let '(bs, inp, ops, obs) := c in
-  list_eqb (pres_eqb rval_eqb) (parun inp ops) (map pnorm obs).
+  list_eqb (pyres_eqb rval_eqb) (parun inp ops) (map pnorm obs).
+
+(* ---- the Python writer (_binary.py CodedOutputStream) ---- *)
+(* buffer size, script, observed bytes, observed chunk sizes, exception? (0 none, 1 IndexError, 2 struct.error, 3 AssertionError, 4 other) *)
+Definition pwcase := (nat * list pwop * list N * list nat * nat)%type.
+
+Definition pwcase_ok_machine (c : pwcase) : bool :=
+  let '(bs, ops, bytes, sizes, err) := c in
+  match pwfinish bs ops with
+  | PWOk ch => Nat.eqb err 0 && list_eqb N.eqb (concat ch) bytes && list_eqb Nat.eqb (map (@length N) ch) sizes
+  | PWFault IndexErr => Nat.eqb err 1
+  | PWFault StructErr => Nat.eqb err 2
+  | PWFault AssertErr => Nat.eqb err 3
+  end.
+
+(* no exception => exactly the bytes the operations denote *)
+Definition pwcase_ok_abs (c : pwcase) : bool :=
+  let '(bs, ops, bytes, sizes, err) := c in
+  if Nat.eqb err 0 then list_eqb N.eqb (concat (map pwbytes ops)) bytes else true.
